@@ -610,8 +610,12 @@ def run_model_paths(case):
             batch_size=pb['batch_size'], num_batch_size_buckets=pb['buckets']))
   if 'evaluator' in case['via']:
     eb = case.get('evaluator_backend', 'default')
-    if eb == 'pmap' and len({len(b) for b in case['batches']}) > 1:
-      eb = 'default'   # pmap stacks the j-th batches of a block: one batch shape
+    if eb == 'pmap' and (len({len(b) for b in case['batches']}) > 1 or
+                         len({tuple(sorted(b)) for b in user_batches}) > 1):
+      # pmap stacks the j-th batches of a block: one batch shape and one
+      # feature set (a batch without the mask key next to one with it cannot
+      # be stacked)
+      eb = 'default'
     evaluator = build_evaluator(fam, c, t, menu, naming, eb)
     rev = list(reversed(user_batches))
     # the mock model ignores its params; pmap needs an array to map over
@@ -924,7 +928,8 @@ def eval_labels(case):
       ls.append('same_names_other_metrics_model_evaluated_first')
     if case.get('evaluator_backend') == 'debug':
       ls.append('evaluator_on_debug_backend')
-    if case.get('evaluator_backend') == 'pmap' and len({len(b) for b in case['batches']}) <= 1:
+    if (case.get('evaluator_backend') == 'pmap' and len({len(b) for b in case['batches']}) <= 1
+        and (case['mask_key'] or len({any(r < 0 for r in b) for b in case['batches']}) <= 1)):
       ls.append('evaluator_on_pmap_backend')
     if case.get('padded_batch') and case['examples']:
       ls.append('via:ClientDataset.padded_batch')
